@@ -306,7 +306,7 @@ def delimited_variants(inner, inner_max_bits: int):
 
 
 # ------------------------------------------------------------------------------------------------ beyond "three of everything"
-MEDIUM_COUNTS = [4, 5, 6, 8, 9, 16, 17]
+MEDIUM_COUNTS = [4, 5, 6, 8, 9, 16, 17, 20, 24, 33]
 MEDIUM_CAPS = [4, 5, 7, 8, 9, 15, 16, 17, 31, 32, 33, 63, 64, 65, 100, 127, 128, 129, 1000]
 
 
@@ -316,7 +316,7 @@ def medium(tier: str = "quick", max_cap: int = 10**9):
     field i of an n-field composite is F1[(start + i * step) % len(F1)]; capacities around every power of two up to 128 and 100 / 1000;
     wrapper chains of depth 4..6 that alternate structure / union / delimited / array.
     """
-    al = [f for f in F1]
+    al = [f for f in F1] + [["struct", [["bool"]]], ["varr", ["struct", [["uint", 8, "s"]]], 2]]  # incl. composite (byte-aligned) fields
     steps = (1, 5) if tier == "quick" else (1, 5, 7)
     starts = range(0, len(al), 3) if tier == "quick" else range(len(al))
     for n in MEDIUM_COUNTS:
